@@ -541,8 +541,8 @@ def parse_lrcr_crb(fdata: bytes, header: Header) -> List[str]:
 
 
         elif constant_type == 4:
-            # 32 bits integer constant
-            constants.append(constant_offset)
+            # 32 bits integer constant (kept as text like every other constant)
+            constants.append(str(constant_offset))
 
         elif constant_type == 9:
             # Floating point
